@@ -161,6 +161,8 @@ func VH_C07_reconfigured() {
 	vAssume(1 <= n1 && n1 <= maxN && 1 <= n2 && n2 <= maxN)
 	n1, n2 = vConcrete(n1), vConcrete(n2)
 	attempts := [2]int{}
+	var lastErr error
+	var handed [][]Result // the result lists handed to post, run by run (post may keep them)
 	b := NewBatchNode().WithMaxRetries(n1).WithBatchConcurrency(vChoice("concurrency", 2)).
 		WithPrepFunc(func(ctx context.Context, s *SharedStore) ([]Result, error) {
 			return []Result{NewResult(100), NewResult(101)}, nil
@@ -171,13 +173,19 @@ func VH_C07_reconfigured() {
 			vMonC(1, func() {
 				attempts[k]++
 				if k == 0 {
-					err = vNewErr() // item 0 always fails
+					lastErr = vNewErr() // item 0 always fails
+					err = lastErr
 				}
 			})
 			return item, err
+		}).
+		WithPostFunc(func(ctx context.Context, s *SharedStore, items, results []Result) (Action, error) {
+			vMon(func() { handed = append(handed, results) })
+			return "done", nil
 		})
 	Run(vNewCtx(), b, NewSharedStore())
 	vAssert(attempts[0] == n1 && attempts[1] == 1, "failing-item-gets-exactly-N-attempts")
+	err1 := lastErr
 	b.WithMaxRetries(n2)
 	attempts = [2]int{}
 	Run(vNewCtx(), b, NewSharedStore())
@@ -186,6 +194,15 @@ func VH_C07_reconfigured() {
 		vCover("budget-raised-between-runs")
 	} else if n2 < n1 {
 		vCover("budget-lowered-between-runs")
+	}
+	// what the first run handed to post is that run's outcome for good: a later run of the same node
+	// does not touch it
+	if len(handed) == 2 && len(handed[0]) == 2 && len(handed[1]) == 2 {
+		vCover("first-runs-results-inspected-after-the-second-run")
+		vAssert(handed[0][0].IsError() && handed[0][0].Error() == err1, "slot-holds-the-error-of-the-items-last-attempt")
+		v, _ := handed[0][1].Value().(int)
+		vAssert(!handed[0][1].IsError() && v == 101, "slot-holds-the-items-own-outcome")
+		vAssert(handed[1][0].IsError() && handed[1][0].Error() == lastErr, "slot-holds-the-error-of-the-items-last-attempt")
 	}
 }
 
